@@ -174,7 +174,7 @@ func Barrier(id, n int) {
 	barMu.Lock()
 	barArrived[id]++
 	barMu.Unlock()
-	deadline := time.Now().Add(100 * time.Millisecond)
+	deadline := time.Now().Add(300 * time.Millisecond)
 	for time.Now().Before(deadline) {
 		barMu.Lock()
 		a := barArrived[id]
